@@ -70,6 +70,9 @@ def run(ctx):
     repeated_requests(ctx)
     headers_mixing_elements_and_values(ctx)
     tuples_for_repeated_elements(ctx)
+    # a wrapper element whose named type lives in another namespace keeps the element's namespace (shared with C08)
+    from harness.props import c08
+    c08.repeating_and_foreign_typed_wrappers(ctx)
     answers = ctx.driver.ask(reqs)
     for ans, (meta, actual, spec) in zip(answers, metas):
         model = [SM.canon_info(x) for x in ans] if isinstance(ans, list) else ans
